@@ -413,6 +413,7 @@ SHAPES = {
 }
 SHAPE_NAMES = tuple(SHAPES)
 BODY_SHAPES = ("post-cl-evil", "post-chunked", "post-chunked-trailer", "put-expect", "blank-post", "get-fold")
+QUICK_SINGLE_ONLY = ("get-odd-headers", "post-cl0", "post-cl-crlf", "post-chunked-empty")  # not paired in the quick tier
 
 
 class PipelineSplits(Bounded):
@@ -423,10 +424,13 @@ class PipelineSplits(Bounded):
              "repeated / colon-carrying header values, Content-Length 0 and >0, bodies that look like requests or chunk "
              "framing, chunked bodies with extensions / upper-case sizes / trailers / no chunks, Expect: 100-continue "
              "on 1.1 and 1.0, Connection: close, a leading empty line, chunked and close-delimited responses); all "
-             "singles and all ordered pairs (thorough: plus all triples of 6 body shapes); both application layers "
-             "(http.Request subclass, Site + leaf Resource); answer policies sync / after each delivery / at end; every "
-             "2-way split and byte-at-a-time for every stream, every 3-way split for singles (thorough: also pairs "
-             "at the http layer)")
+             "singles and all ordered pairs of 14 of them (thorough: all 324 pairs plus all triples of 6 body shapes); "
+             "both application layers "
+             "(http.Request subclass, Site + leaf Resource); answer policies sync / after each delivery / at end; "
+             "byte-at-a-time for every stream x layer x policy; every 2-way split for singles (all layers, policies) and "
+             "for pairs at the http layer under sync and after-each-delivery (thorough: every stream x layer x policy); "
+             "every 3-way split for singles at the http layer under sync (thorough: singles everywhere, and pairs of the "
+             "6 body shapes at the http layer under sync)")
     functions = ["HTTPChannel.dataReceived", "HTTPChannel.lineReceived", "HTTPChannel.headerReceived",
                  "HTTPChannel.allHeadersReceived", "HTTPChannel.rawDataReceived", "HTTPChannel.allContentReceived",
                  "HTTPChannel.requestDone", "HTTPChannel._finishRequestBody", "HTTPChannel._send100Continue",
@@ -435,7 +439,8 @@ class PipelineSplits(Bounded):
                  "Request.requestReceived", "_GenericHTTPChannelProtocol.dataReceived"]
 
     def cases(self, tier, rng):
-        pipes = [(a,) for a in SHAPE_NAMES] + [(a, b) for a in SHAPE_NAMES for b in SHAPE_NAMES]
+        pair_names = SHAPE_NAMES if tier != "quick" else tuple(n for n in SHAPE_NAMES if n not in QUICK_SINGLE_ONLY)
+        pipes = [(a,) for a in SHAPE_NAMES] + [(a, b) for a in pair_names for b in pair_names]
         if tier != "quick":
             pipes += list(itertools.product(BODY_SHAPES, repeat=3))
         for names in pipes:
@@ -457,7 +462,7 @@ class PipelineSplits(Bounded):
             cutsets += two_way(n)
         if len(names) == 1 and (wide or (stack == "http" and policy == "sync")):
             cutsets += three_way(n)
-        elif wide and len(names) == 2 and stack == "http" and policy == "sync":
+        elif wide and len(names) == 2 and stack == "http" and policy == "sync" and all(x in BODY_SHAPES for x in names):
             cutsets += three_way(n)
         return compare_splits(stack, policy, stream, cutsets, whole)
 
@@ -467,12 +472,12 @@ class PipelineSplits(Bounded):
 # ----------------------------------------------------------------------------------------------
 
 BASES = (
-    b"GET /a HTTP/1.1\r\nHost: h\r\n\r\nGET /b HTTP/1.1\r\n\r\n",
+    b"GET /a HTTP/1.1\r\nH: h\r\n\r\nGET /b HTTP/1.1\r\n\r\n",
     b"POST /a HTTP/1.1\r\nContent-Length: 3\r\n\r\nabc\r\nGET /b HTTP/1.1\r\n\r\n",
     b"POST /a HTTP/1.1\r\nTransfer-Encoding: chunked\r\n\r\n2;x\r\nab\r\n0\r\nT: v\r\n\r\nGET /b HTTP/1.1\r\n\r\n",
     b"PUT /a HTTP/1.1\r\nExpect: 100-continue\r\nX: a\r\n b\r\nContent-Length: 2\r\n\r\nxyGET /b HTTP/1.0\r\n\r\nGET /c HTTP/1.1\r\n\r\n",
 )
-MUT_QUICK = b"\r\n :\x00"
+MUT_QUICK = b"\r\n:\x00"
 MUT_WIDE = b"\r\n \t:;,\x000a9fxG/=\"\x7f\x80\xff"
 
 
@@ -504,11 +509,12 @@ class MutatedSplits(Bounded):
     prop = "C18"
     title = "single-edit mutants of pipelined streams: every split gives the requests and written bytes of the one-piece delivery"
     scope = ("4 base pipelines (GET+GET; Content-Length body + stray CRLF + GET; chunked body with extension and trailer + "
-             "GET; Expect/continuation/Content-Length + 1.0 GET + GET), 47..112 bytes; every single-byte deletion, every "
-             "replacement and insertion at every position with each of CR LF SP ':' NUL (thorough: 20 bytes incl. HT ';' "
+             "GET; Expect/continuation/Content-Length + 1.0 GET + GET), 44..112 bytes; every single-byte deletion, every "
+             "replacement and insertion at every position with each of CR LF ':' NUL (thorough: 20 bytes incl. SP HT ';' "
              "',' digits hex '=' '\"' DEL 0x80 0xff), CRLF insertion at every position, every truncation, every line "
-             "duplicated, every CRLF reduced to bare LF / bare CR; http.Request layer; sync policy: every 2-way split "
-             "and byte-at-a-time; deferred policy: byte-at-a-time (thorough: every 2-way split too)")
+             "duplicated, every CRLF reduced to bare LF / bare CR; http.Request layer; sync policy: byte-at-a-time and every "
+             "2-way split (quick tier, replacements and insertions only: the 2-way splits within 10 bytes of the edit); "
+             "after-each-delivery policy: byte-at-a-time (thorough: every 2-way split too)")
     functions = PipelineSplits.functions + ["_parseRequestLine", "HTTPChannel._respondToBadRequestAndDisconnect",
                                             "HTTPChannel._maybeChooseTransferDecoder", "LineReceiver.lineLengthExceeded"]
 
@@ -536,7 +542,11 @@ class MutatedSplits(Bounded):
         if stream is None or len(stream) < 2:
             raise Bounded.Skip()
         n = len(stream)
-        why = compare_splits("http", "sync", stream, two_way(n) + bytewise(n))
+        if wide or op not in ("rep", "ins"):
+            cuts = two_way(n)
+        else:  # quick tier, the two bulk operators: cut points within 10 bytes of the edit
+            cuts = [(a,) for a in range(max(1, pos - 10), min(n, pos + 11))]
+        why = compare_splits("http", "sync", stream, cuts + bytewise(n))
         if why:
             return why
         return compare_splits("http", "each", stream, (two_way(n) if wide else []) + bytewise(n))
@@ -567,25 +577,28 @@ class SuffixStates(Bounded):
     title = ("every short byte string placed at each parser state (request start, target, header section, Content-Length "
              "value, Expect value, between requests, chunked body, trailer section): every split around it gives the "
              "one-piece result")
-    scope = ("8 parser contexts, each a fixed valid prefix + every string of <= 4 bytes (thorough <= 5, chunked-body and "
-             "header-section <= 6) over a 5..7 symbol alphabet holding that state's delimiters (CR LF SP HT ':' ';' NUL DEL "
-             "digits hex) + a fixed tail that completes the message and pipelines one more GET; cut points: every "
-             "2-way split from one byte before the inserted string to 4 bytes after it, every 3-way split inside that "
-             "window (thorough), byte-at-a-time over the whole stream; http.Request layer; sync policy, and deferred "
-             "policy for byte-at-a-time")
+    scope = ("8 parser contexts, each a fixed valid prefix + every string of <= 4 bytes (<= 3 in the two chunked contexts; "
+             "thorough <= 5, header-section <= 6) over a 5..7 symbol alphabet holding that state's delimiters (CR LF SP HT "
+             "':' ';' NUL DEL digits hex) + a fixed tail that completes the message and pipelines one more GET; cut "
+             "points: every 2-way split from one byte before the inserted string to 4 bytes after it, byte-at-a-time "
+             "across that window (thorough, strings <= 4: also every 3-way split inside the window and byte-at-a-time "
+             "over the whole stream); http.Request layer; sync policy, and after-each-delivery policy for the "
+             "byte-at-a-time deliveries")
     functions = MutatedSplits.functions + ["_ChunkedTransferDecoder._dataReceived_CHUNK_LENGTH",
                                            "_ChunkedTransferDecoder._dataReceived_BODY", "_ChunkedTransferDecoder._dataReceived_CRLF",
                                            "_ChunkedTransferDecoder._dataReceived_TRAILER"]
 
     def cases(self, tier, rng):
+        slow = ("chunked-body", "chunk-trailer")  # chunked requests spool the body to a temporary file
         for name, (prefix, alpha, tails) in CONTEXTS.items():
-            top = 4
-            if tier != "quick":
-                top = 6 if name in ("chunked-body", "header-section") else 5
+            if tier == "quick":
+                top, wide_top = (3 if name in slow else 4), -1
+            else:
+                top, wide_top = (6 if name == "header-section" else 5), 4
             for k in range(0, top + 1):
                 for t in itertools.product(alpha, repeat=k):
-                    for ti in range(len(tails)):
-                        yield (name, bytes(t), ti, tier != "quick")
+                    for ti in range(len(tails) if k <= 4 else 1):
+                        yield (name, bytes(t), ti, k <= wide_top)
 
     def nontrivial(self, case):
         return len(case[1]) >= 1
@@ -596,13 +609,16 @@ class SuffixStates(Bounded):
         stream = prefix + suffix + tails[ti]
         n = len(stream)
         lo, hi = max(1, len(prefix) - 1), min(n - 1, len(prefix) + len(suffix) + 4)
-        cutsets = [(a,) for a in range(lo, hi + 1)] + bytewise(n)
+        if hi < lo:
+            raise Bounded.Skip()
+        burst = [tuple(range(lo, hi + 1))]  # byte-at-a-time across the window, the rest in two pieces
+        cutsets = [(a,) for a in range(lo, hi + 1)] + burst
         if wide:
-            cutsets += [(a, b) for a in range(lo, hi + 1) for b in range(a + 1, hi + 1)]
+            cutsets += [(a, b) for a in range(lo, hi + 1) for b in range(a + 1, hi + 1)] + bytewise(n)
         why = compare_splits("http", "sync", stream, cutsets)
         if why:
             return why
-        return compare_splits("http", "each", stream, bytewise(n) + [(len(prefix) + len(suffix),)] if n > 1 else [])
+        return compare_splits("http", "each", stream, burst + (bytewise(n) if wide else []))
 
 
 # ----------------------------------------------------------------------------------------------
@@ -663,9 +679,9 @@ def limit_stream(kind, n):
     if kind == "pipelined-backlog":  # _optimisticEagerReadSize = 0x4000 bytes buffered behind a pending request
         one = b"GET /%03d HTTP/1.1\r\n\r\n"
         unit = len(one % 0)
-        k = n // unit + 1
+        k = n // unit + 20
         s = b"".join(one % (i % 1000) for i in range(k))
-        return s, [unit, unit + 0x4000, unit + n, len(s) - unit]
+        return s, [unit, unit + 0x4000, len(s) - unit]
     if kind == "big-body":
         body = (b"0\r\n\r\nGET /evil HTTP/1.1\r\n\r\n" * (n // 27 + 1))[:n]
         pre = b"POST /x HTTP/1.1\r\nContent-Length: %d\r\n\r\n" % n
@@ -686,11 +702,11 @@ LIMIT_CASES = (
     + [("header-count", n) for n in (499, 500, 501)]
     + [("chunk-size-line", n) for n in range(1021, 1027)]
     + [("last-chunk-line", n) for n in range(1021, 1027)]
-    + [("trailer-one", n) for n in range(65533, 65539)]
-    + [("trailer-many", n) for n in range(65533, 65539)]
-    + [("pipelined-backlog", n) for n in (0x4000 - 1, 0x4000, 0x4000 + 1)]
+    + [("pipelined-backlog", 0x4000 + 200)]
     + [("big-body", n) for n in (65535, 70001)]
     + [("big-chunked-body", n) for n in (65535, 70001)]
+    + [("trailer-one", n) for n in range(65533, 65539)]
+    + [("trailer-many", n) for n in range(65533, 65539)]
 )
 
 
@@ -698,11 +714,13 @@ class LimitBoundaries(Bounded):
     prop = "C18"
     title = "streams whose lines / header totals / counts / chunk lines / trailers / backlog sit on each limit: splits at the limit give the one-piece result"
     scope = ("real limits (MAX_LENGTH 16384, totalHeadersSize 16384, maxHeaders 500, maxChunkSizeLineLength 1024, trailer limit "
-             "65536, eager-read backlog 0x4000); 13 stream families, each at every length from limit-2/-1 to limit+2/+3; "
-             "cut points: every offset within 3 bytes of each limit-relevant position (end of the long line, its CR / LF, the "
-             "limit offset itself, end of trailers) as 2-way splits, as 3-way splits isolating one byte, and byte-at-a-time "
-             "across that window; plus 4 (thorough 40) seeded random multi-way splits per stream; sync and after-each-"
-             "delivery policies, at-end policy for the backlog family; http.Request layer")
+             "65536, eager-read backlog 0x4000); 10 stream families with the measured quantity at every value from limit-2/-1 "
+             "to limit+2/+3, plus a 17 KB pipeline of small requests (backlog; the cut decides how much is buffered behind "
+             "the pending request) and 64 KB / 70 KB Content-Length and chunked bodies; cut points: every offset within 3 "
+             "bytes of each limit-relevant position (end of the long line, its CR / LF, the limit offset itself, end of "
+             "trailers, final CRLF) as 2-way splits, as 3-way splits isolating one byte, and byte-at-a-time across that "
+             "window; plus 4 (thorough 40) seeded random multi-way splits per stream; sync and after-each-delivery "
+             "policies, at-end policy for the backlog family; http.Request layer")
     functions = SuffixStates.functions + ["HTTPChannel.pauseProducing", "HTTPChannel.resumeProducing"]
 
     def cases(self, tier, rng):
@@ -722,7 +740,8 @@ class LimitBoundaries(Bounded):
             window.update(range(m - 3, m + 4))
         pts = sorted(p for p in window if 0 < p < size)
         cutsets = [(p,) for p in pts]
-        cutsets += [(p, p + 1) for p in pts if p + 1 < size]
+        if kind != "pipelined-backlog":  # (hundreds of requests per run: keep that family to 2-way and bursts)
+            cutsets += [(p, p + 1) for p in pts if p + 1 < size]
         for m in marks:  # byte-at-a-time across the window around each mark
             run = tuple(p for p in range(m - 3, m + 5) if 0 < p < size)
             if run:
